@@ -13,6 +13,8 @@
 import MitmVerif.Lemmas.C42
 import MitmVerif.Lemmas.C42Print
 import MitmVerif.Model.C42_Body
+import MitmVerif.Model.C42_Leaf
+import MitmVerif.Lemmas.C42Fuel
 namespace MitmVerif.Props.C42
 open MitmVerif.C42
 
@@ -363,5 +365,181 @@ theorem eval_total {Flow : Type} (sem : Sem Flow) (t : Ast) (f : Flow) : eval se
 /-- a decoder that refuses everything: the operators then search exactly what was received -/
 example : bodyLeaf (fun b => b == [104, 105]) (fun _ _ => none) [⟨some [104, 105], some ['g', 'z', 'i', 'p']⟩] = true := by
   decide
+
+/-! ### which part of a flow each operator reads (Model/C42_Leaf.lean), and with which flags -/
+
+/-- "regular expressions are case-insensitive Python regexes": every regex operator of the table hands its pattern to
+the engine with IGNORECASE; MULTILINE exactly for ~h ~hq ~hs ~meta ~comment, DOTALL exactly for ~b ~bq ~bs; a bytes
+pattern exactly for the operators that search bytes (pinned against the table regenerated from flowfilter.py). -/
+theorem rex_flags_pinned : ∀ c ∈ Gen.rexCodes, ∀ a,
+    (specOf c a).pattern = a ∧ (specOf c a).ignorecase = true ∧
+    (specOf c a).multiline = [['h'], ['h', 'q'], ['h', 's'], ['m', 'e', 't', 'a'], ['c', 'o', 'm', 'm', 'e', 'n', 't']].contains c ∧
+    (specOf c a).dotall = [['b'], ['b', 'q'], ['b', 's']].contains c ∧
+    (specOf c a).bin = ![['d'], ['d', 's', 't'], ['s', 'r', 'c'], ['u'], ['m', 'e', 't', 'a'], ['m', 'a', 'r', 'k', 'e', 'r'],
+                          ['c', 'o', 'm', 'm', 'e', 'n', 't']].contains c := by
+  have h : ∀ c ∈ Gen.rexCodes,
+      Gen.ignoreCase = true ∧
+      Gen.rexMultiline.contains c = [['h'], ['h', 'q'], ['h', 's'], ['m', 'e', 't', 'a'], ['c', 'o', 'm', 'm', 'e', 'n', 't']].contains c ∧
+      Gen.rexDotall.contains c = [['b'], ['b', 'q'], ['b', 's']].contains c ∧
+      Gen.rexBin.contains c = ![['d'], ['d', 's', 't'], ['s', 'r', 'c'], ['u'], ['m', 'e', 't', 'a'], ['m', 'a', 'r', 'k', 'e', 'r'],
+                          ['c', 'o', 'm', 'm', 'e', 'n', 't']].contains c := by decide +kernel
+  intro c hc a
+  obtain ⟨h1, h2, h3, h4⟩ := h c hc
+  exact ⟨rfl, h1, h2, h3, h4⟩
+
+private theorem spec_family (a : Str) :
+    specOf ['b', 'q'] a = specOf ['b'] a ∧ specOf ['b', 's'] a = specOf ['b'] a ∧
+    specOf ['h', 'q'] a = specOf ['h'] a ∧ specOf ['h', 's'] a = specOf ['h'] a ∧
+    specOf ['t', 'q'] a = specOf ['t'] a ∧ specOf ['t', 's'] a = specOf ['t'] a := by
+  have h : (Gen.rexBin.contains ['b', 'q'] = Gen.rexBin.contains ['b'] ∧ Gen.rexMultiline.contains ['b', 'q'] = Gen.rexMultiline.contains ['b'] ∧ Gen.rexDotall.contains ['b', 'q'] = Gen.rexDotall.contains ['b']) ∧
+      (Gen.rexBin.contains ['b', 's'] = Gen.rexBin.contains ['b'] ∧ Gen.rexMultiline.contains ['b', 's'] = Gen.rexMultiline.contains ['b'] ∧ Gen.rexDotall.contains ['b', 's'] = Gen.rexDotall.contains ['b']) ∧
+      (Gen.rexBin.contains ['h', 'q'] = Gen.rexBin.contains ['h'] ∧ Gen.rexMultiline.contains ['h', 'q'] = Gen.rexMultiline.contains ['h'] ∧ Gen.rexDotall.contains ['h', 'q'] = Gen.rexDotall.contains ['h']) ∧
+      (Gen.rexBin.contains ['h', 's'] = Gen.rexBin.contains ['h'] ∧ Gen.rexMultiline.contains ['h', 's'] = Gen.rexMultiline.contains ['h'] ∧ Gen.rexDotall.contains ['h', 's'] = Gen.rexDotall.contains ['h']) ∧
+      (Gen.rexBin.contains ['t', 'q'] = Gen.rexBin.contains ['t'] ∧ Gen.rexMultiline.contains ['t', 'q'] = Gen.rexMultiline.contains ['t'] ∧ Gen.rexDotall.contains ['t', 'q'] = Gen.rexDotall.contains ['t']) ∧
+      (Gen.rexBin.contains ['t', 's'] = Gen.rexBin.contains ['t'] ∧ Gen.rexMultiline.contains ['t', 's'] = Gen.rexMultiline.contains ['t'] ∧ Gen.rexDotall.contains ['t', 's'] = Gen.rexDotall.contains ['t']) := by
+    decide +kernel
+  obtain ⟨⟨a1, a2, a3⟩, ⟨b1, b2, b3⟩, ⟨c1, c2, c3⟩, ⟨d1, d2, d3⟩, ⟨e1, e2, e3⟩, ⟨f1, f2, f3⟩⟩ := h
+  refine ⟨?_, ?_, ?_, ?_, ?_, ?_⟩ <;> simp only [specOf, a1, a2, a3, b1, b2, b3, c1, c2, c3, d1, d2, d3, e1, e2, e3, f1, f2, f3]
+
+/-- The composition: with the table's leaf semantics, a regex leaf is "the regex, compiled with the operator's flags,
+matches one of the parts of the flow the operator reads", `~c n` is the status test, and every composite node is
+not / all / any of its members. -/
+theorem doc_eval (search : RxSpec → Bytes → Bool) (dec : Str → Bytes → Option Bytes) (f : FlowView) :
+    (∀ c a, eval (docSem search dec) (.rex c a) f = (leafReads dec c f).any (search (specOf c a))) ∧
+    (∀ c, eval (docSem search dec) (.unary c) f = unaryV search c f) ∧
+    (∀ c n, eval (docSem search dec) (.int c n) f = intV c n f) ∧
+    (∀ t, eval (docSem search dec) (.not t) f = !eval (docSem search dec) t f) ∧
+    (∀ l, eval (docSem search dec) (.and l) f = l.all (fun t => eval (docSem search dec) t f)) ∧
+    (∀ l, eval (docSem search dec) (.or l) f = l.any (fun t => eval (docSem search dec) t f)) :=
+  ⟨fun _ _ => rfl, fun _ => rfl, fun _ _ => rfl, fun t => eval_not _ f t, fun l => eval_and_all _ f l, fun l => eval_or_any _ f l⟩
+
+/-- The whole statement in one: a documented rendering of a tree is accepted and its verdict on every flow is the
+table's reading of that tree - whatever the regex engine and the content decoder answer. -/
+theorem parse_render_documented (compiles : Str → Str → Bool) (t : Ast) (s : Str)
+    (h : Renders t s) (hc : argsOk compiles t = true) :
+    ∃ t', parse compiles s = some t' ∧
+      ∀ (search : RxSpec → Bytes → Bool) (dec : Str → Bytes → Option Bytes) (f : FlowView),
+        eval (docSem search dec) t' f = eval (docSem search dec) t f := by
+  obtain ⟨t', h1, h2⟩ := parse_render compiles t s h hc
+  exact ⟨t', h1, fun search dec f => h2 FlowView (docSem search dec) f⟩
+
+/-- `@only(http.HTTPFlow)`: on a flow that is not an HTTP flow the header, content-type, method, domain, status, asset
+and websocket operators are false - no subject is read at all. -/
+theorem only_http (search : RxSpec → Bytes → Bool) (dec : Str → Bytes → Option Bytes) (f : FlowView)
+    (h : f.kind ≠ FKind.http) (a : Str) (n : Nat) :
+    leafReads dec ['t'] f = [] ∧ leafReads dec ['t', 'q'] f = [] ∧ leafReads dec ['t', 's'] f = [] ∧
+    leafReads dec ['h'] f = [] ∧ leafReads dec ['h', 'q'] f = [] ∧ leafReads dec ['h', 's'] f = [] ∧
+    leafReads dec ['m'] f = [] ∧ leafReads dec ['d'] f = [] ∧
+    rexV search dec ['h'] a f = false ∧ rexV search dec ['m'] a f = false ∧ rexV search dec ['d'] a f = false ∧
+    rexV search dec ['t'] a f = false ∧
+    intV ['c'] n f = false ∧ unaryV search ['a'] f = false ∧
+    unaryV search ['w', 'e', 'b', 's', 'o', 'c', 'k', 'e', 't'] f = false ∧ unaryV search ['h', 't', 't', 'p'] f = false := by
+  have hh : isHttp f = false := by simp [isHttp, h]
+  simp [leafReads, rexV, intV, unaryV, hh]
+
+/-- `@only(HTTPFlow, DNSFlow)` for ~u ~q ~s, `@only(HTTP, TCP, UDP, DNS)` for the body operators: false elsewhere. -/
+theorem only_gating (search : RxSpec → Bytes → Bool) (dec : Str → Bytes → Option Bytes) (f : FlowView) (a : Str) :
+    (f.kind ≠ FKind.http → f.kind ≠ FKind.dns →
+      rexV search dec ['u'] a f = false ∧ unaryV search ['q'] f = false ∧ unaryV search ['s'] f = false) ∧
+    (f.kind = FKind.other →
+      rexV search dec ['b'] a f = false ∧ rexV search dec ['b', 'q'] a f = false ∧ rexV search dec ['b', 's'] a f = false) := by
+  constructor
+  · intro h1 h2
+    have hh : isHttp f = false := by simp [isHttp, h1]
+    have hd : isDns f = false := by simp [isDns, h2]
+    simp [leafReads, rexV, unaryV, hh, hd]
+  · intro h
+    simp [leafReads, rexV, isHttp, isStream, isDns, h]
+
+private theorem any_filter_split {α : Type} (l : List α) (p q : α → Bool) :
+    l.any q = ((l.filter p).any q || (l.filter (fun x => !p x)).any q) := by
+  induction l with
+  | nil => rfl
+  | cons x l ih =>
+    cases hp : p x <;> simp [List.filter, hp, ih, Bool.or_assoc, Bool.or_left_comm]
+
+private theorem wsPart_split (f : FlowView) (q : Bytes → Bool) :
+    (wsPart f (fun _ => true)).any q = ((wsPart f (·.fromClient)).any q || (wsPart f (fun m => !m.fromClient)).any q) := by
+  unfold wsPart
+  cases f.ws with
+  | none => rfl
+  | some l =>
+    have := any_filter_split l (·.fromClient) (fun m => q m.content)
+    simpa [List.any_map, Function.comp_def] using this
+
+private theorem msgPart_split (f : FlowView) (q : Bytes → Bool) :
+    (msgPart f (fun _ => true)).any q = ((msgPart f (·.fromClient)).any q || (msgPart f (fun m => !m.fromClient)).any q) := by
+  unfold msgPart
+  have := any_filter_split f.msgs (·.fromClient) (fun m => q m.content)
+  simpa [List.any_map, Function.comp_def] using this
+
+/-- ~b = ~bq ∨ ~bs on every flow (HTTP bodies and websocket messages, TCP/UDP messages split by direction, DNS
+request/response text), ~h = ~hq ∨ ~hs, ~t = ~tq ∨ ~ts. -/
+theorem both_sides_split (search : RxSpec → Bytes → Bool) (dec : Str → Bytes → Option Bytes) (f : FlowView) (a : Str) :
+    rexV search dec ['b'] a f = (rexV search dec ['b', 'q'] a f || rexV search dec ['b', 's'] a f) ∧
+    rexV search dec ['h'] a f = (rexV search dec ['h', 'q'] a f || rexV search dec ['h', 's'] a f) ∧
+    rexV search dec ['t'] a f = (rexV search dec ['t', 'q'] a f || rexV search dec ['t', 's'] a f) := by
+  obtain ⟨s1, s2, s3, s4, s5, s6⟩ := spec_family a
+  refine ⟨?_, ?_, ?_⟩
+  · simp only [rexV, s1, s2]
+    by_cases h1 : isHttp f = true
+    · simp only [leafReads, h1, if_true, List.any_append]
+      rw [wsPart_split f]
+      simp [Bool.or_assoc, Bool.or_left_comm, Bool.or_comm]
+    · by_cases h2 : isStream f = true
+      · simp only [leafReads, h1, h2, if_true, if_false]
+        simpa using msgPart_split f (search (specOf ['b'] a))
+      · by_cases h3 : isDns f = true
+        · simp [leafReads, h1, h2, h3, List.any_append]
+        · simp [leafReads, h1, h2, h3]
+  · simp only [rexV, s3, s4]
+    by_cases h1 : isHttp f = true <;> simp [leafReads, h1, List.any_append]
+  · simp only [rexV, s5, s6]
+    by_cases h1 : isHttp f = true <;> simp [leafReads, h1, List.any_append]
+
+/-- ~q is "no response yet" and ~s "has a response": complementary on HTTP and DNS flows; ~replay is ~replayq or
+~replays whenever `is_replay` is one of None / "request" / "response"; ~all holds of every flow. -/
+theorem unary_table (search : RxSpec → Bytes → Bool) (f : FlowView) :
+    ((f.kind = FKind.http ∨ f.kind = FKind.dns) → unaryV search ['q'] f = !unaryV search ['s'] f) ∧
+    (f.replay ≠ Replay.other → unaryV search ['r', 'e', 'p', 'l', 'a', 'y'] f =
+        (unaryV search ['r', 'e', 'p', 'l', 'a', 'y', 'q'] f || unaryV search ['r', 'e', 'p', 'l', 'a', 'y', 's'] f)) ∧
+    unaryV search ['a', 'l', 'l'] f = true ∧
+    (unaryV search ['t', 'c', 'p'] f = true → unaryV search ['h', 't', 't', 'p'] f = false ∧ unaryV search ['u', 'd', 'p'] f = false ∧
+        unaryV search ['d', 'n', 's'] f = false) := by
+  refine ⟨fun h => ?_, fun h => ?_, by simp [unaryV], fun h => ?_⟩
+  · rcases h with h | h <;> simp [unaryV, isHttp, isDns, h]
+  · cases hr : f.replay <;> simp_all [unaryV]
+  · have : f.kind = FKind.tcp := by simpa [unaryV] using h
+    simp [unaryV, isHttp, isDns, this]
+
+/-- the flow kinds really are told apart: a DNS flow without response satisfies ~q and nothing HTTP-only -/
+example : let f : FlowView := { kind := .dns, req := none, resp := none, method := [], host := [], prettyHost := [], prettyUrl := [],
+                                status := 0, ws := none, msgs := [], dnsReq := some [1], dnsResp := none, dnsQName := some [100],
+                                src := none, dst := none, metaText := [], marked := [], comment := [], error := false, replay := .none }
+    unaryV (fun _ _ => true) ['q'] f = true ∧ leafReads (fun _ _ => none) ['u'] f = [[100]] ∧
+    leafReads (fun _ _ => none) ['b'] f = [[1]] ∧ leafReads (fun _ _ => none) ['m'] f = [] := by
+  decide
+
+/-! ### the fuel is immaterial -/
+
+/-- Any fuel larger than the text gives the same parse: `pExpr` is one function, the fuel only makes the recursion
+through parentheses structural. -/
+theorem parse_fuel_independent (s : Str) (n m : Nat) (hn : s.length < n) (hm : s.length < m) :
+    pExpr n s = pExpr m s :=
+  pExpr_fuel s.length n m hn hm s (Nat.le_refl _)
+
+/-- `parseStruct` (which uses fuel length+1) is the parse with any larger fuel. -/
+theorem parseStruct_any_fuel (s : Str) (n : Nat) (hn : s.length < n) :
+    parseStruct s = (pExpr n s).bind (fun p => if skipWs p.2 = [] then some p.1 else none) := by
+  unfold parseStruct
+  rw [parse_fuel_independent s (s.length + 1) n (by omega) hn]
+  cases pExpr n s with
+  | none => rfl
+  | some p => obtain ⟨t, r⟩ := p; rfl
+
+/-- Every parser of the model returns a suffix no longer than its input (the loops' fuel `rest.length` can therefore
+never run out before the text does). -/
+theorem parse_consumes (n : Nat) (s : Str) (t : Ast) (r : Str) (h : pExpr n s = some (t, r)) : r.length ≤ s.length :=
+  pExpr_shrinks n s t r h
 
 end MitmVerif.Props.C42
